@@ -263,6 +263,27 @@ def check_no_narrowing(ck, P, rid):
     ck.expect(rid, n, 3, "allocator entry points that classify a requested size")
 
 
+def min_operands(f, ln):
+    """Operands of min(a, b) / (a < b ? a : b), single-definition locals seen through; [ln] when ln is not a minimum."""
+    from . import query as Q
+    ln = Q.resolve_local(f, ln)
+    if ln.k == "UnaryOperator" and ln.op == "__extension__" and ln.children:
+        ln = X.strip(ln.children[0])
+    if ln.k == "StmtExpr" and ln.macros and ln.macros[-1] == "min":
+        decls = [v for v in ln.walk() if v.k == "VarDecl" and v.children]
+        if len(decls) == 2:
+            return [Q.resolve_local(f, d.children[0]) for d in decls]
+    elif ln.k == "ConditionalOperator":
+        cond = X.strip(ln.children[0])
+        a, b = X.strip(ln.children[1]), X.strip(ln.children[2])
+        if cond.k == "BinaryOperator" and cond.op in ("<", "<=", ">", ">="):
+            l, r = X.strip(cond.children[0]), X.strip(cond.children[1])
+            small_first = cond.op in ("<", "<=")
+            if {X.show(l), X.show(r)} == {X.show(a), X.show(b)} and (X.show(a) == X.show(l)) == small_first:
+                return [Q.resolve_local(f, a), Q.resolve_local(f, b)]
+    return [ln]
+
+
 def check_realloc_copy(ck, P, rid):
     """rs_realloc moves a block that cannot be kept: the copy reads at most the OLD block (its size is what
     buddy_best_effort_realloc reports in .original = 1 << order found by climbing the allocation tree from ptr) and writes at
@@ -283,22 +304,7 @@ def check_realloc_copy(ck, P, rid):
         return
     c = src_is_ptr[0]
     ln = Q.resolve_local(f, X.callee_args(c)[2])
-    # operands of min(a, b) / a < b ? a : b
-    ops = None
-    if ln.k == "StmtExpr" and ln.macros and ln.macros[-1] == "min":
-        decls = [v for v in ln.walk() if v.k == "VarDecl" and v.children]
-        if len(decls) == 2:
-            ops = [Q.resolve_local(f, d.children[0]) for d in decls]
-    elif ln.k == "ConditionalOperator":
-        cond = X.strip(ln.children[0])
-        a, b = X.strip(ln.children[1]), X.strip(ln.children[2])
-        if cond.k == "BinaryOperator" and cond.op in ("<", "<=", ">", ">="):
-            l, r = X.strip(cond.children[0]), X.strip(cond.children[1])
-            small_first = cond.op in ("<", "<=")
-            if {X.show(l), X.show(r)} == {X.show(a), X.show(b)} and (X.show(a) == X.show(l)) == small_first:
-                ops = [a, b]
-    if ops is None:
-        ops = [ln]
+    ops = min_operands(f, ln)
 
     def is_request(n):
         return n.k == "DeclRefExpr" and n.d.get("sc") == "param" and len(pnames) > 1 and n.name == pnames[1]
